@@ -1098,6 +1098,10 @@ func (env *SpecEnv) evalCall(x *SExpr) *Val {
 		case "emptyset":
 			return &Val{K: KArr, S: []string{"((as const (Array Int Bool)) false)"}, Sort: "(Array Int Bool)"}
 		case "ptr":
+			// ptr(x) of a struct-typed location (e.g. a mutex field) is its address
+			if r := env.refOrNil(args[0]); r != nil && r.T != nil && kindOf(r.T) == KStruct {
+				return mathInt(r.addr)
+			}
 			v := env.eval(args[0])
 			if v.K == KSlice {
 				return mathInt(v.S[0])
